@@ -14,7 +14,7 @@ Local Open Scope Z_scope.
    The full statement (kept visible):
    read_matches_spec_statement v :=
      forall A db f rt s n, wf db f -> 0 <= s -> 0 <= n ->
-       impl_read A db v rt f s n = Some (spec_window A db rt f s n). *)
+       impl_read A db v lb rt f s n = Some (spec_window A db lb rt f s n). *)
 
 (* it is still false of the frozen tree: padding before the frame offset follows
    the native type (open finding getdata/raw-bof-pad-native-type) *)
@@ -30,52 +30,52 @@ Proof. exact statement_refuted. Qed.
    zero, n = 0 -- the read is the specified window unless it reaches native-type
    padding of a RAW leaf. *)
 Theorem read_matches_spec_current :
-  forall (A : Alg) (db : database) (v : variant) (f : field) (rt : ctype) (s n : Z),
+  forall (A : Alg) (db : database) (v : variant) (lb : Z) (f : field) (rt : ctype) (s n : Z),
     v_align v = true -> v_alloc0 v = true -> wf db f -> mplex_free f -> 0 <= n ->
-    ~ In TRawPad (uncovered A db v rt f s n) ->
-    impl_read A db v rt f s n = Some (spec_window A db rt f s n).
+    ~ In TRawPad (uncovered A db v lb rt f s n) ->
+    impl_read A db v lb rt f s n = Some (spec_window A db lb rt f s n).
 Proof. exact read_ok_current. Qed.
 
 (* sample k does not depend on how a window is split into two reads *)
 Theorem window_split_independent :
-  forall (A : Alg) (db : database) (v : variant) (f : field) (rt : ctype) (s a b : Z) (X Y : list (V A)),
-    wf db f -> 0 <= a -> 0 <= b ->
-    covered A db v rt f s (a + b) -> covered A db v rt f s a -> covered A db v rt f (s + a) b ->
-    impl_read A db v rt f s a = Some X -> zlen X = a ->
-    impl_read A db v rt f (s + a) b = Some Y ->
-    impl_read A db v rt f s (a + b) = Some (X ++ Y).
+  forall (A : Alg) (db : database) (v : variant) (lb : Z) (f : field) (rt : ctype) (s a b : Z) (X Y : list (V A)),
+    wf db f -> 0 <= a -> 0 <= b -> lb < 0 \/ mplexfreeb f = true ->
+    covered A db v lb rt f s (a + b) -> covered A db v lb rt f s a -> covered A db v lb rt f (s + a) b ->
+    impl_read A db v lb rt f s a = Some X -> zlen X = a ->
+    impl_read A db v lb rt f (s + a) b = Some Y ->
+    impl_read A db v lb rt f s (a + b) = Some (X ++ Y).
 Proof. exact window_split. Qed.
 
 (* On the covered region -- every source variant, field type, nesting depth,
    sample rates, window and value algebra -- gd_getdata returns exactly the
    window the Standards define (count and every value). *)
 Theorem read_matches_spec_partial :
-  forall (A : Alg) (db : database) (v : variant) (f : field) (rt : ctype) (s n : Z),
-    wf db f -> 0 <= n -> covered A db v rt f s n ->
-    impl_read A db v rt f s n = Some (spec_window A db rt f s n).
+  forall (A : Alg) (db : database) (v : variant) (lb : Z) (f : field) (rt : ctype) (s n : Z),
+    wf db f -> 0 <= n -> covered A db v lb rt f s n ->
+    impl_read A db v lb rt f s n = Some (spec_window A db lb rt f s n).
 Proof. exact read_ok. Qed.
 
 (* With the repairs C01-2/3/4 nothing is excluded for fields without MPLEX:
    every window, aligned or not, also before sample zero. *)
 Theorem read_matches_spec_repaired :
-  forall (A : Alg) (db : database) (v : variant) (f : field) (rt : ctype) (s n : Z),
+  forall (A : Alg) (db : database) (v : variant) (lb : Z) (f : field) (rt : ctype) (s n : Z),
     read_repaired v -> wf db f -> mplex_free f -> 0 <= n ->
-    impl_read A db v rt f s n = Some (spec_window A db rt f s n).
+    impl_read A db v lb rt f s n = Some (spec_window A db lb rt f s n).
 Proof. exact read_ok_repaired. Qed.
 
 (* the returned count ends exactly at the end-of-field *)
 Theorem read_count_partial :
-  forall (A : Alg) (db : database) (v : variant) (f : field) (rt : ctype) (s n : Z),
-    wf db f -> 0 <= n -> covered A db v rt f s n ->
-    read_count A db v rt f s n = Some (spec_count db f s n).
+  forall (A : Alg) (db : database) (v : variant) (lb : Z) (f : field) (rt : ctype) (s n : Z),
+    wf db f -> 0 <= n -> covered A db v lb rt f s n ->
+    read_count A db v lb rt f s n = Some (spec_count db f s n).
 Proof. exact read_count_ok. Qed.
 
 (* sample i of the result is the documented value of absolute sample s+i *)
 Theorem read_sample_partial :
-  forall (A : Alg) (db : database) (v : variant) (f : field) (rt : ctype) (s n i : Z),
-    wf db f -> 0 <= n -> covered A db v rt f s n -> 0 <= i < spec_count db f s n ->
-    option_map (fun l => nthZ l i (garbage A)) (impl_read A db v rt f s n)
-    = Some (spec_val A db rt f (s + i)).
+  forall (A : Alg) (db : database) (v : variant) (lb : Z) (f : field) (rt : ctype) (s n i : Z),
+    wf db f -> 0 <= n -> covered A db v lb rt f s n -> 0 <= i < spec_count db f s n ->
+    option_map (fun l => nthZ l i (garbage A)) (impl_read A db v lb rt f s n)
+    = Some (spec_val A db lb rt f s (s + i)).
 Proof. exact read_sample_ok. Qed.
 
 (* below the end-of-field the documented formula only uses input samples below
@@ -87,31 +87,31 @@ Proof. exact spec_inputs_exist. Qed.
 
 (* the excluded regions are inhabited by failures of the unrepaired code ... *)
 Theorem unaligned_start_witness :
-  impl_read XAlg db_ab v0 F64 m_ab 1 4 =
+  impl_read XAlg db_ab v0 (-1) F64 m_ab 1 4 =
     Some [XV 4626322717216342016; XV 4629137466983448576; XV 4635329916471083008; XV 4636737291354636288] /\
-  spec_window XAlg db_ab F64 m_ab 1 4 =
+  spec_window XAlg db_ab (-1) F64 m_ab 1 4 =
     [XV 4626322717216342016; XV 4633641066610819072; XV 4635329916471083008; XV 4639481672377565184] /\
-  uncovered XAlg db_ab v0 F64 m_ab 1 4 = [TUnaligned].
+  uncovered XAlg db_ab v0 (-1) F64 m_ab 1 4 = [TUnaligned].
 Proof. exact witness_unaligned. Qed.
 
 (* ... which the repair removes *)
 Theorem unaligned_start_repaired_witness :
-  impl_read XAlg db_ab v1 F64 m_ab 1 4 = Some (spec_window XAlg db_ab F64 m_ab 1 4) /\
-  uncovered XAlg db_ab v1 F64 m_ab 1 4 = [].
+  impl_read XAlg db_ab v1 (-1) F64 m_ab 1 4 = Some (spec_window XAlg db_ab (-1) F64 m_ab 1 4) /\
+  uncovered XAlg db_ab v1 (-1) F64 m_ab 1 4 = [].
 Proof. exact witness_unaligned_repaired. Qed.
 
 Theorem raw_pad_witness :
-  impl_read XAlg db_fo v0 F64 a 2 4 =
+  impl_read XAlg db_fo v0 (-1) F64 a 2 4 =
     Some [XV 0; XV 0; XV 4607182418800017408; XV 4611686018427387904] /\
-  spec_window XAlg db_fo F64 a 2 4 =
+  spec_window XAlg db_fo (-1) F64 a 2 4 =
     [XV 9221120237041090560; XV 9221120237041090560; XV 4607182418800017408; XV 4611686018427387904] /\
-  uncovered XAlg db_fo v0 F64 a 2 4 = [TRawPad] /\
-  impl_read XAlg db_fo v1 F64 a 2 4 = Some (spec_window XAlg db_fo F64 a 2 4).
+  uncovered XAlg db_fo v0 (-1) F64 a 2 4 = [TRawPad] /\
+  impl_read XAlg db_fo v1 (-1) F64 a 2 4 = Some (spec_window XAlg db_fo (-1) F64 a 2 4).
 Proof. exact witness_raw_pad. Qed.
 
 (* the hypotheses of the partial theorems are satisfiable (two rates, aligned start) *)
 Example covered_is_inhabited :
-  wf db_ab m_ab /\ covered XAlg db_ab v0 F64 m_ab 2 4 /\
-  impl_read XAlg db_ab v0 F64 m_ab 2 4 =
+  wf db_ab m_ab /\ covered XAlg db_ab v0 (-1) F64 m_ab 2 4 /\
+  impl_read XAlg db_ab v0 (-1) F64 m_ab 2 4 =
     Some [XV 4633641066610819072; XV 4635329916471083008; XV 4639481672377565184; XV 4640537203540230144].
 Proof. exact covered_example. Qed.
